@@ -24,14 +24,14 @@ func selfCheck(o *hx.Out) {
 	if r := kcp.VerifPoolReports(); len(r) != 0 {
 		panic("pool: reports after reset")
 	}
-	b := kcp.VerifPoolGet()
+	b := kcp.VerifPoolAcquire()
 	if len(b) != 1500 || cap(b) != 1500 {
 		panic("pool: Get did not return a full buffer")
 	}
 	if !kcp.VerifPoolUse(b[:10]) {
 		panic("pool: owned buffer reported as recycled")
 	}
-	kcp.VerifPoolPut(b[:3])
+	kcp.VerifPoolRelease(b[:3])
 	for i, c := range b {
 		if c != kcp.VerifPoison {
 			panic(fmt.Sprintf("pool: Put did not poison byte %d", i))
@@ -46,11 +46,11 @@ func selfCheck(o *hx.Out) {
 		panic("pool: recycled buffer reported as owned")
 	}
 	expect("a use of a recycled buffer", "pool-use-after-put")
-	kcp.VerifPoolPut(b)
+	kcp.VerifPoolRelease(b)
 	expect("a second Put", "pool-double-put")
-	kcp.VerifPoolPut(make([]byte, 1500))
+	kcp.VerifPoolRelease(make([]byte, 1500))
 	expect("a Put of a buffer that never came from Get", "pool-foreign-put")
-	if err := kcp.VerifPoolPut(make([]byte, 1499)); err == nil {
+	if err := kcp.VerifPoolRelease(make([]byte, 1499)); err == nil {
 		panic("pool: Put accepted a short buffer")
 	}
 	g0, p0 := kcp.VerifPoolCounts()
@@ -61,10 +61,10 @@ func selfCheck(o *hx.Out) {
 	kcp.VerifPoolReset()
 	runtime.GC()
 	runtime.GC()
-	c := kcp.VerifPoolGet()
-	kcp.VerifPoolPut(c)
+	c := kcp.VerifPoolAcquire()
+	kcp.VerifPoolRelease(c)
 	c[0] = 0
-	d := kcp.VerifPoolGet()
+	d := kcp.VerifPoolAcquire()
 	_ = d
 	expect("a write between Put and Get", "pool-write-after-put")
 	runtime.GC()
@@ -86,12 +86,12 @@ func synthetic(o *hx.Out, g *hx.Rng, n int) {
 		w := g.Intn(100)
 		switch {
 		case w < 35:
-			held = append(held, kcp.VerifPoolGet())
+			held = append(held, kcp.VerifPoolAcquire())
 			key.WriteByte('g')
 		case w < 60 && len(held) > 0:
 			k := g.Intn(len(held))
 			b := held[k]
-			kcp.VerifPoolPut(b[:g.Intn(1501)])
+			kcp.VerifPoolRelease(b[:g.Intn(1501)])
 			held = append(held[:k], held[k+1:]...)
 			gone = append(gone, b)
 			fmt.Fprintf(&key, "p%d", k)
@@ -101,19 +101,19 @@ func synthetic(o *hx.Out, g *hx.Rng, n int) {
 			fmt.Fprintf(&key, "u%d", k)
 		case w < 82 && len(gone) > 0: // put again something we already gave back
 			k := g.Intn(len(gone))
-			kcp.VerifPoolPut(gone[k])
+			kcp.VerifPoolRelease(gone[k])
 			fmt.Fprintf(&key, "P%d", k)
 		case w < 90 && len(gone) > 0: // use something we already gave back
 			k := g.Intn(len(gone))
 			kcp.VerifPoolUse(gone[k])
 			fmt.Fprintf(&key, "U%d", k)
 		case w < 94:
-			kcp.VerifPoolPut(make([]byte, 1500))
+			kcp.VerifPoolRelease(make([]byte, 1500))
 			key.WriteByte('F')
 		default:
 			c := []int{0, 1, 100, 1499, 1501, 3000}[g.Intn(6)]
 			verdict := "accept"
-			if kcp.VerifPoolPut(make([]byte, c)) != nil {
+			if kcp.VerifPoolRelease(make([]byte, c)) != nil {
 				verdict = "refuse"
 			}
 			caps = append(caps, fmt.Sprintf("cap %d=%s", c, verdict))
